@@ -118,6 +118,20 @@ NEEDS = {
  "C18f": ("C18", "previous inflate stream > 32 KiB through the window, ZeroReset/FullReset, then a stream with a match reaching before its own start: only dict[..dict_ofs + dict_avail] zeroed"),
  "C19e": ("C19", "serde round trip while suspended inside a stored block with more than 511 payload bytes outstanding: deserialize bound on counter too small"),
  "C19f": ("C19", "rebuild from the block-boundary record after a 32 KiB ring has wrapped, then a match whose distance exceeds the ring write position: new out_wrapped flag not in the record"),
+ "C02h": ("C02", "lazy parsing, LZ code buffer position exactly 65532 at the start of a step that writes a deferred literal, a new flag byte and a long match: 'nearly full' margin 4 instead of 8, the 16-bit index wraps onto the first flag byte (1 input in 18000)"),
+ "C02i": ("C02", "level 1, buffer output smaller than the block, an internal block cut on one of the last 1-3 bytes of a look-ahead chunk of a flushing call: consumed count lost, data compressed twice"),
+ "C03i": ("C03", "dynamic header whose first distance code length is coded with symbol 16 (repeat previous) - rejected as if it were at position 0"),
+ "C03j": ("C03", "ring mode, >= 32767 bytes already output, a match with distance exactly 32767 and length >= 4: run-fill shortcut fires when the source is one slot ahead of the destination"),
+ "C05g": ("C05", "invalid dynamic block with an incomplete code-length code whose data uses the unassigned bit pattern: repeat tables lost their dummy entry and mask, index out of bounds"),
+ "C05h": ("C05", "flat buffer with out_pos strictly greater than out.len(): parameter check moved into the ring-buffer arm, panic instead of BadParam"),
+ "C08g": ("C08", "decompress_with_limit with out_pos + out_max < out.len() and a stored block whose payload crosses the end of the budget: copied past the budget"),
+ "C08h": ("C08", "to-Vec helpers: raw stream compressing better than 2:1 that ends in a long match, helper buffer size 2 * input * 2^k falling inside that match with every input byte already consumed: Err(HasMoreOutput) although the plaintext fits"),
+ "C13g": ("C13", "stream driven to StreamEnd, then inflate() once more with an empty input slice: Err(Buf) instead of a stable StreamEnd"),
+ "C13h": ("C13", "a Finish call that is not the first call arriving when the delivered total is an exact multiple of 32768 with nothing pending: direct path taken mid-stream, history lost"),
+ "C14g": ("C14", "output parked by a flush into a tiny buffer, a Finish call that only drains, then None/Sync/Full: accepted (the Finish request was not recorded)"),
+ "C14h": ("C14", "Finish that cannot complete, then a refused non-Finish call: refusal reports the previous call's consumed/written counts (deflate() then panics on slicing)"),
+ "C17g": ("C17", "one tdefl_compressor initialised with a callback, then tdefl_init(d, NULL, NULL, flags): stale callback kept, BAD_PARAM or output through the old callback"),
+ "C17h": ("C17", "level 11 exactly: level clamp uses NUM_PROBES.len(), index out of bounds panics across the C boundary"),
 }
 
 def main():
